@@ -2,7 +2,8 @@
 From Tx Require Import Common.Base UdpListener.Model UdpListener.Proofs.
 
 (* a datagram from a remote that has a connection is appended to that connection's buffer -
-   unless the connection is closed - and nothing else changes: every other connection, the
+   unless the connection is closed, or its buffer is full (then the datagram is dropped and the connection stays registered:
+   [deliver_fn]) - and nothing else changes: every other connection, the
    accept queue and the map are untouched *)
 Theorem C11_known_remote : forall s r p id, sock_closed s = false -> lookup (conns s) r = Some id ->
   let s' := arrive s r p in
@@ -10,10 +11,14 @@ Theorem C11_known_remote : forall s r p id, sock_closed s = false -> lookup (con
   allc s' = upd_conn (allc s) id (deliver_fn p) /\
   (forall j, j <> id -> nth_error (allc s') j = nth_error (allc s) j).
 Proof.
-  intros s r p id Ho Hl s'. unfold s', arrive. rewrite Ho, Hl. simpl. fold (deliver_fn p).
+  intros s r p id Ho Hl s'. unfold s', arrive. rewrite Ho, Hl. simpl.
   repeat split. intros j Hj. apply nth_upd_conn_other. congruence.
 Qed.
 Print Assumptions C11_known_remote.
+
+Theorem C11_full_buffer_keeps_connection : forall p c, c_closed c = false -> buf_full c = true -> deliver_fn p c = c.
+Proof. intros p c Hc Hf. unfold deliver_fn. rewrite Hc, Hf. reflexivity. Qed.
+Print Assumptions C11_full_buffer_keeps_connection.
 
 (* the first datagram from an unknown remote creates exactly one new connection - queued last
    for Accept, holding that datagram - provided the listener accepts, the filter admits the
@@ -24,7 +29,7 @@ Theorem C11_unknown_remote : forall s r p, sock_closed s = false -> lookup (conn
     conns s' = (r, length (allc s)) :: conns s /\
     acceptq s' = acceptq s ++ [length (allc s)] /\
     refs s' = refs s + 1 /\
-    allc s' = allc s ++ [{| c_remote := r; c_buf := [p]; c_closed := false; c_accepted := false |}]
+    allc s' = allc s ++ [{| c_remote := r; c_buf := [p]; c_closed := false; c_accepted := false; c_limit := 0 |}]
   else s' = s.
 Proof.
   intros s r p Ho Hl s'. unfold s', arrive. rewrite Ho, Hl.
@@ -42,10 +47,10 @@ Print Assumptions C11_unknown_remote.
 Theorem C11_read_is_fifo : forall s id c p rest k, nth_error (allc s) id = Some c -> c_buf c = p :: rest ->
   snd (conn_read s id k) = ((if k <? zlen p then 1 else 0), zfirstn k p) /\
   nth_error (allc (fst (conn_read s id k))) id =
-    Some {| c_remote := c_remote c; c_buf := rest; c_closed := c_closed c; c_accepted := c_accepted c |}.
+    Some {| c_remote := c_remote c; c_buf := rest; c_closed := c_closed c; c_accepted := c_accepted c; c_limit := c_limit c |}.
 Proof.
   intros s id c p rest k Hn Hb. unfold conn_read. rewrite Hn, Hb. simpl. split; [reflexivity|].
-  exact (nth_upd_conn_same (allc s) id (fun c0 => {| c_remote := c_remote c0; c_buf := rest; c_closed := c_closed c0; c_accepted := c_accepted c0 |}) c Hn).
+  exact (nth_upd_conn_same (allc s) id (fun c0 => {| c_remote := c_remote c0; c_buf := rest; c_closed := c_closed c0; c_accepted := c_accepted c0; c_limit := c_limit c0 |}) c Hn).
 Qed.
 Print Assumptions C11_read_is_fifo.
 
